@@ -279,6 +279,22 @@ impl Check for C05 {
                 out.push(serde_json::to_value(Unit { opts: Opts::new(P::Seq(vec![P::Switch(Names::short('v')), d])), len: tier.pick(4, 5), family: "loose-counted".into(), alpha, no_ledger: true, removal: true }).unwrap());
             }
         }
+        // a command with a one-letter alias: the word that spells the alias, written right after
+        // the name, is an ordinary item of the command (a positional value or a foreign word)
+        {
+            let pos = P::Pos { ty: Ty::Os, strict: Strict::Any, metavar: "FILE".into(), help: None };
+            let cmd = |name: &str, alias: char, inner: Vec<P>, adjacent: bool| P::Cmd { name: name.into(), shorts: vec![alias], longs: vec![], inner: Box::new(Opts::new(P::Seq(inner))), adjacent, help: None };
+            let v = P::Switch(Names::short('v'));
+            let defs = vec![
+                (P::Seq(vec![v.clone(), cmd("build", 'b', vec![P::Switch(Names::short('x')), pos.clone().many()], false)]), toks(&["build", "b", "x", "-v", "-x"])),
+                (P::Seq(vec![v.clone(), cmd("build", 'b', vec![P::Switch(Names::short('x'))], false)]), toks(&["build", "b", "x", "-v", "-x"])),
+                (P::Seq(vec![v.clone(), cmd("build", 'b', vec![P::Switch(Names::short('x')), pos.clone().opt()], false).opt()]), toks(&["build", "b", "x", "-v", "-x"])),
+                (P::Seq(vec![P::Alt(vec![cmd("alpha", 'a', vec![P::Switch(Names::short('a'))], true), cmd("beta", 'x', vec![P::Switch(Names::short('b'))], true)]).many()]), toks(&["alpha", "a", "beta", "x", "-a", "-b"])),
+            ];
+            for (d, alpha) in defs {
+                out.push(serde_json::to_value(Unit { opts: Opts::new(d), len: tier.pick(4, 5), family: "loose-command-alias".into(), alpha, no_ledger: true, removal: true }).unwrap());
+            }
+        }
         // an adjacent group inside an adjacent group: `--tag (-x P)..`
         {
             let pos = |m: &str| P::Pos { ty: Ty::Os, strict: Strict::Any, metavar: m.into(), help: None };
@@ -290,7 +306,10 @@ impl Check for C05 {
                     1 => g.opt(),
                     _ => g.many(),
                 };
-                out.push(serde_json::to_value(Unit { opts: Opts::new(P::Seq(vec![g])), len: tier.pick(5, 6), family: "loose-group-in-group".into(), alpha: toks(&["--tag", "-x", "1", "2"]), no_ledger: true, removal: true }).unwrap());
+                out.push(serde_json::to_value(Unit { opts: Opts::new(P::Seq(vec![g.clone()])), len: tier.pick(5, 6), family: "loose-group-in-group".into(), alpha: toks(&["--tag", "-x", "1", "2"]), no_ledger: true, removal: true }).unwrap());
+                // the same beside a switch of the surrounding level, which may stand between two
+                // inner blocks (and ends the outer block there)
+                out.push(serde_json::to_value(Unit { opts: Opts::new(P::Seq(vec![P::Switch(Names::short('f')), g])), len: tier.pick(6, 7), family: "loose-group-in-group".into(), alpha: toks(&["--tag", "-x", "1", "2", "-f"]), no_ledger: true, removal: true }).unwrap());
             }
         }
         for (o, alpha) in loose_groups() {
@@ -344,7 +363,7 @@ impl Check for C05 {
         }
     }
     fn rule(&self) -> String {
-        "definitions = shape family (12 field kinds, ordered tuples x 4 tails), conventional family, adjacent group / adjacent command shapes, loose (non-adjacent) optional / repeated groups whose later member gives up after the first consumed, non-ASCII short flags in clusters with declared and undeclared letters; accepted vectors are discovered by walking the whole token tree; for EVERY accepted vector: ledger (multiset of value leaves == multiset of value items of the line) and every single insertion at every position left of `--` of: -z, --zz, --flag=x / -f=x / --flag= / -f= for each declared flag, a second copy of each present single-use option, a surplus word when the positional capacity is finite and full -> each must be an stderr failure; and removal of any single item (other than `--`) must change the outcome (the item was used); evaluation = one run; non-trivial = accepted non-empty vector".into()
+        "definitions = shape family (12 field kinds, ordered tuples x 4 tails), conventional family, adjacent group / adjacent command shapes, loose (non-adjacent) optional / repeated groups whose later member gives up after the first consumed, non-ASCII short flags in clusters with declared and undeclared letters; accepted vectors are discovered by walking the whole token tree; for EVERY accepted vector: ledger (multiset of value leaves == multiset of value items of the line) and every single insertion at every position left of `--` of: -z, --zz, --flag=x / -f=x / --flag= / -f= for each declared flag, a second copy of each present single-use option, a surplus word when the positional capacity is finite and full -> each must be an stderr failure; and removal of any single item (other than `--`) must change the outcome (the item was used); evaluation = one run; non-trivial = accepted non-empty vector; plus commands with a one-letter alias (plain with positionals, optional, a repeated choice of adjacent ones) over lines where the alias word follows the name: every item of an accepted line is used".into()
     }
     fn bounds(&self, tier: Tier) -> Value {
         json!({"fields_per_level": tier.pick("<=2 + tail", "<=3 + tail"), "base_vector_length": tier.pick("4 (shapes, groups), 3 (conventional)", "5 / 4"), "insertions": "one item, every position"})
